@@ -120,12 +120,20 @@ fn run_real(c: &Value, batches: &[Vec<Vec<u8>>]) -> Result<(u64, Result<Value, S
             // nobody accepts: once the accept queue is full the kernel drops further SYNs and a connect never completes
             let mut fillers = Vec::new();
             let mut full = false;
-            for _ in 0 .. 600 {
-                match std::net::TcpStream::connect_timeout(&addr, Duration::from_millis(120)) {
-                    Ok(s) => fillers.push(s),
+            let mut misses = 0;
+            for _ in 0 .. 5000 {
+                match std::net::TcpStream::connect_timeout(&addr, Duration::from_millis(150)) {
+                    Ok(s) => {
+                        fillers.push(s);
+                        misses = 0;
+                    }
                     Err(_) => {
-                        full = true;
-                        break;
+                        // (a loaded machine can miss one deadline: the queue counts as full after three misses in a row)
+                        misses += 1;
+                        if misses >= 3 {
+                            full = true;
+                            break;
+                        }
                     }
                 }
             }
